@@ -662,7 +662,10 @@ def run_shard(shard):
             for day in range(7, 14):
                 ff = (2021, shard["month"], day) + f[3:]
                 acc.c["states"] += 1
-                for fmt in ("dddd D MMMM YYYY HH:mm:ss.SSSSSS Z", "ddd, D MMM YYYY HH:mm:ss.SSSSSS ZZ", "dd D MMMM YYYY H:m:s.SSSSSS z"):
+                for fmt in ("dddd D MMMM YYYY HH:mm:ss.SSSSSS Z", "ddd, D MMM YYYY HH:mm:ss.SSSSSS ZZ", "dd D MMMM YYYY H:m:s.SSSSSS z",
+                            # a name as the LAST thing in the string, and names written directly against their neighbours
+                            "HH:mm:ss.SSSSSS Z D MMMM YYYY dddd", "HH:mm:ss.SSSSSS Z YYYY-DD MMMM", "YYYY-MM-DD HH:mm:ss.SSSSSS Z ddd",
+                            "DDMMMMYYYY HH:mm:ss.SSSSSS Z", "ddddDD/MM/YYYY HH:mm:ss.SSSSSS Z"):
                     check_roundtrip(acc, pendulum, "Europe/Paris", ff, loc, fmt, True)
                 check_tokens(acc, pendulum, "Asia/Kolkata", ff, loc)
         # ordinal tokens over their whole ranges: every day of this month in the leap year 2024 (DDDo 1..366 over the
